@@ -109,7 +109,7 @@ def _exchange(sockpath, data, process, appname="hermes-server"):
     reply = b""
     try:
         with socket.socket(socket.AF_UNIX, socket.SOCK_STREAM) as s:
-            s.settimeout(3)
+            s.settimeout(20)   # generous: the checks may run on a loaded machine
             s.connect(sockpath)
             try:
                 s.sendall(data)
